@@ -287,3 +287,83 @@ Proof.
     + symmetry. apply HJ; auto. congruence.
 Qed.
 End Generic.
+
+(* ------------------------------------------------------------------------------------------------
+   Two structures that agree on a set D closed under parents and children compute the same labels on D.
+   Used to transport calculate_gfp (which wants the mirror hypothesis for all numbers) to a heap in
+   which only the objects of one graph are related. *)
+Section Ext.
+Variables (knd knd' : nat -> kind) (parents parents' children children' : nat -> list nat)
+          (const const' fixedval fixedval' : nat -> bool).
+Variable D : nat -> Prop.
+Hypothesis agree : forall y, D y ->
+  knd y = knd' y /\ parents y = parents' y /\ children y = children' y /\ const y = const' y /\ fixedval y = fixedval' y.
+Hypothesis closed_ch : forall y c, D y -> In c (children y) -> D c.
+Hypothesis closed_pa : forall y p, D y -> In p (parents y) -> D p.
+
+Definition agree_on (s s' : state) := forall y, D y -> s y = s' y.
+Definition orel (a b : option state) := match a, b with Some t, Some t' => agree_on t t' | None, None => True | _, _ => False end.
+
+Lemma g_agree s s' p : D p -> agree_on s s' -> g const s p = g const' s' p.
+Proof. intros Hp H. unfold g. rewrite (H p Hp). destruct (agree p Hp) as (_ & _ & _ & -> & _). reflexivity. Qed.
+Lemma existsb_g_agree s s' l : (forall p, In p l -> D p) -> agree_on s s' -> existsb (g const s) l = existsb (g const' s') l.
+Proof.
+  intros Hl H. induction l as [|p r IH]; cbn; auto. rewrite (g_agree s s' p), IH; auto.
+  - intros q Hq. apply Hl. right; auto.
+  - apply Hl. left; auto.
+Qed.
+Lemma forallb_g_agree s s' l : (forall p, In p l -> D p) -> agree_on s s' -> forallb (g const s) l = forallb (g const' s') l.
+Proof.
+  intros Hl H. induction l as [|p r IH]; cbn; auto. rewrite (g_agree s s' p), IH; auto.
+  - intros q Hq. apply Hl. right; auto.
+  - apply Hl. left; auto.
+Qed.
+Lemma agree_upd s s' c b : agree_on s s' -> agree_on (upd s c b) (upd s' c b).
+Proof. intros H y Hy. unfold upd. destruct (Nat.eqb y c); auto. Qed.
+
+Lemma propagate_ext : forall fuel s s' x, D x -> agree_on s s' ->
+  orel (propagate knd parents children const fuel s x) (propagate knd' parents' children' const' fuel s' x).
+Proof.
+  induction fuel as [|f IH]; intros s s' x Hx H; cbn; auto.
+  destruct (agree x Hx) as (_ & _ & Ech & Eco & _). rewrite <- Eco, <- Ech.
+  destruct (const x); [exact H|].
+  assert (Hl : forall c, In c (children x) -> D c) by (intros c Hc; eapply closed_ch; eauto).
+  revert Hl. generalize (children x) as l. intros l.
+  assert (GEN : forall acc acc', orel acc acc' -> (forall c, In c l -> D c) ->
+    orel (fold_left (fun acc c => match acc with None => None | Some s =>
+            let new := match knd c with KAll => false | KAny => existsb (g const s) (parents c) | KFixed => s c end in
+            if Bool.eqb new (s c) then Some s else propagate knd parents children const f (upd s c new) c end) l acc)
+         (fold_left (fun acc c => match acc with None => None | Some s =>
+            let new := match knd' c with KAll => false | KAny => existsb (g const' s) (parents' c) | KFixed => s c end in
+            if Bool.eqb new (s c) then Some s else propagate knd' parents' children' const' f (upd s c new) c end) l acc')).
+  { induction l as [|c r IHl]; intros acc acc' R Hl; cbn [fold_left]; auto.
+    apply IHl; [|intros q Hq; apply Hl; right; auto].
+    assert (Hc : D c) by (apply Hl; left; auto).
+    destruct acc as [t|], acc' as [t'|]; cbn in R; try contradiction; auto.
+    destruct (agree c Hc) as (Ek & Ep & _). rewrite <- Ek, <- Ep.
+    assert (En : match knd c with KAll => false | KAny => existsb (g const t) (parents c) | KFixed => t c end =
+                 match knd c with KAll => false | KAny => existsb (g const' t') (parents c) | KFixed => t' c end).
+    { destruct (knd c); auto. apply existsb_g_agree; auto. intros p Hp. eapply closed_pa; eauto. }
+    cbn zeta. rewrite En, (R c Hc). destruct (Bool.eqb _ (t' c)); [exact R|].
+    apply IH; auto. apply agree_upd; auto. }
+  intros Hl. apply GEN; auto.
+Qed.
+
+Lemma calculate_ext fuel : forall l s s', (forall d, In d l -> D d) -> agree_on s s' ->
+  orel (calculate_from knd parents children const fixedval fuel l s)
+       (calculate_from knd' parents' children' const' fixedval' fuel l s').
+Proof.
+  unfold calculate_from.
+  assert (GEN : forall l acc acc', orel acc acc' -> (forall d, In d l -> D d) ->
+    orel (fold_left (calc_step knd parents children const fixedval fuel) l acc)
+         (fold_left (calc_step knd' parents' children' const' fixedval' fuel) l acc')).
+  { induction l as [|d r IHl]; intros acc acc' R Hl; cbn [fold_left]; auto.
+    apply IHl; [|intros q Hq; apply Hl; right; auto].
+    assert (Hd : D d) by (apply Hl; left; auto).
+    destruct acc as [t|], acc' as [t'|]; cbn in R; try contradiction; cbn [calc_step]; auto.
+    destruct (agree d Hd) as (Ek & _ & _ & _ & Ef). rewrite <- Ek, <- Ef.
+    destruct (knd d); auto.
+    destruct (fixedval d); [apply agree_upd; auto|]. apply propagate_ext; auto. apply agree_upd; auto. }
+  intros l s s' Hl H. apply GEN; auto.
+Qed.
+End Ext.
